@@ -518,7 +518,7 @@ func cmdCheck(args []string) int {
 		ev.Coverage["generator"] = "cmd/gombok built from the current /repo tree and run on each scratch package; its output is type-checked, built and then executed symbolically with a harness generated from the same struct specification"
 		ev.Coverage["program_samples"] = sc.samples
 	}
-	ev.Assumptions = append([]string{"go/ssa (x/tools v0.29.0) lowering and the executor's instruction semantics", "z3 4.8.12 verdicts", "sequential consistency; scheduling points only at sync/atomic, mutex, channel and spawn operations (sound for data-race-free code)"}, keys(notes)...)
+	ev.Assumptions = append([]string{"go/ssa (x/tools v0.29.0) lowering and the executor's instruction semantics", "verdicts of the SMT solver ("+strings.Join(eng.SolverBin, " ")+": z3 5.1.0 when z3-new is on PATH, else z3 4.8.12; thorough tier: assertion queries cross-checked by cvc5)", "stubs listed under stubs_hit behave as modelled (DESIGN 2.6)", "sequential consistency; scheduling points only at sync/atomic, mutex, channel and spawn operations (sound for data-race-free code)"}, keys(notes)...)
 	ev.Assumptions = append(ev.Assumptions, hgen.Assumptions(id)...)
 	if !*noEvidence {
 		os.MkdirAll(filepath.Join(verifDir, "evidence"), 0o755)
